@@ -10,6 +10,39 @@ LEVEL = "model_checking"
 QUICK_FIXTURES = "aes128_ctm_user,aes256r6_unicode,rc4-40_empty,rc4-128_user,aes256r5_user"
 
 
+def boundary_passwords(seed, want):
+    """User passwords for which Algorithm 2.B, run on EncWriter's validation salt (Salt(1)), ends exactly on its termination
+    boundary (last byte of E = round - 32 at the round that ends the loop).  Found with the primitives; the hash itself is
+    computed by Crypto.tla when the file is written and read."""
+    import subprocess
+    code = r"""
+import hashlib, json, sys
+from cryptography.hazmat.primitives.ciphers import Cipher, algorithms, modes
+def run(pw, salt, u):
+    K = hashlib.sha256(pw + salt + u).digest(); r = 0
+    while True:
+        c = Cipher(algorithms.AES(K[:16]), modes.CBC(K[16:32])).encryptor(); E = c.update((pw + K + u) * 64) + c.finalize()
+        K = [hashlib.sha256, hashlib.sha384, hashlib.sha512][sum(E[:16]) % 3](E).digest(); r += 1
+        if r >= 64 and E[-1] <= r - 32: return r, E[-1]
+seed, want = int(sys.argv[1]), int(sys.argv[2]); out = []
+salt = bytes([(1 * 53 + i * 29) % 256 for i in range(1, 9)])
+i = 0
+while len(out) < want and i < 20000:
+    pw = ("bnd%d" % (seed * 20000 + i)).encode()
+    r, last = run(pw, salt, b"")
+    if last == r - 32: out.append(list(pw))
+    i += 1
+print(json.dumps(out))
+"""
+    p = subprocess.run(["/usr/bin/python3", "-c", code, str(seed), str(want)], stdout=subprocess.PIPE, stderr=subprocess.PIPE, text=True, timeout=900)
+    if p.returncode != 0:
+        raise vlib.ToolError("boundary search failed: " + p.stderr[-500:])
+    out = json.loads(p.stdout)
+    if len(out) < want:
+        raise vlib.ToolError("no boundary password found")
+    return out
+
+
 def run(ctx):
     thorough = ctx.tier == "thorough"
     ctx.rule = ("The independent implementation is the specification.  (1) EncWriter.tla ENCRYPTS: it serializes a small document "
@@ -31,7 +64,11 @@ def run(ctx):
     # (1) files encrypted by the specification
     cfg = "MCEncW_thorough" if thorough else "MCEncW"
     of = os.path.join(ctx.work, "encw.out")
-    res = vlib.tlc("crypto", "MCEncW", cfg=cfg, workers=1, timeout=3000, out_file=of, libs=("lib",))
+    bp = os.path.join(ctx.work, "boundary.ndjson")
+    with open(bp, "w") as f:
+        for pw in boundary_passwords(ctx.seed, 3 if thorough else 1):
+            f.write(json.dumps({"pw": pw}) + "\n")
+    res = vlib.tlc("crypto", "MCEncW", cfg=cfg, workers=1, timeout=3000, out_file=of, libs=("lib",), env={"BOUNDARY": bp})
     vlib.tlc_must_pass(res, cfg)
     ctx.add_tlc(res)
     tp = os.path.join(ctx.work, "encw.ndjson")
